@@ -135,6 +135,18 @@ Theorem C16_slew_comparison_is_nonstrict_real :
 Proof. exact pub_ge_vv_real. Qed.
 Print Assumptions C16_slew_comparison_is_nonstrict_real.
 
+(* Unknown full scale.  Reader.range_volts of a recording opened WITHOUT metadata is
+   sample2volts * nan; with a NaN range the amplitude test of that channel is false for
+   every sample (so with all ranges NaN n_over = 0 and only the slew clause of
+   C16_flags_spec can flag), and a NaN sample never passes the amplitude test. *)
+Theorem C16_unknown_range_disables_amplitude_test :
+  forall pd ed pm em (Hpm : Prec_gt_0 pm) (Hem : Prec_lt_emax pm em) (x : binary_float pd ed)
+         (mv : binary_float pm em),
+  over _ _ (i_vabs pd ed) (i_thr98 pm em Hpm Hem) (i_gt_vw pd ed pm em) x B754_nan = false /\
+  over _ _ (i_vabs pd ed) (i_thr98 pm em Hpm Hem) (i_gt_vw pd ed pm em) B754_nan mv = false.
+Proof. intros. split; [apply pub_nan_range_never_over|apply pub_nan_sample_never_over]. Qed.
+Print Assumptions C16_unknown_range_disables_amplitude_test.
+
 (* ---- Part 1b: the full-scale voltage handed over by the reader ------------------ *)
 (* decompress_destripe_cbin calls saturation(max_voltage = Reader.range_volts[:nc - nsync]).
    The metadata layer is C09's model; the hypotheses below are verbatim those of
